@@ -280,9 +280,14 @@ def parse_guide(path=None):
             k += 1
         if name.lower() in res:
             raise DocError("built-in documented twice: " + name)
-        res[name.lower()] = {"name": name, "args": args,
-                             "text": [b.strip() for b in block if b.strip()],
-                             "doc": parse_block(block), "line": i + 1}
+        entry = {"name": name, "args": args,
+                 "text": [b.strip() for b in block if b.strip()], "line": i + 1}
+        try:
+            entry["doc"] = parse_block(block)
+        except DocError as err:
+            # fail closed for this built-in only: its cases are unsupported
+            entry["error"] = str(err)
+        res[name.lower()] = entry
         i = j
     return res
 
@@ -292,4 +297,4 @@ if __name__ == "__main__":
     g = parse_guide()
     print(len(g))
     for k, v in g.items():
-        print(k, v["args"], v["text"], json.dumps(v["doc"])[:200])
+        print(k, v["args"], v["text"], json.dumps(v.get("doc", v.get("error")))[:200])
